@@ -89,7 +89,8 @@ xml_get_val_arr(const uint8_t *xml_data, size_t xml_data_size,
 	size_t cur_tag = 0, data_avail, attr_size = 0;
 	ssize_t level = 0;
 
-	if (NULL != next_pos && xml_data <= (*next_pos) &&
+	if (NULL != next_pos && NULL != (*next_pos) &&
+	    xml_data <= (*next_pos) &&
 	    (xml_data + xml_data_size) > (*next_pos)) {
 		TagEnd = (*next_pos);
 		cur_tag = ((TagEnd == xml_data) ? 0 : (tag_arr_count - 1));
@@ -102,6 +103,8 @@ xml_get_val_arr(const uint8_t *xml_data, size_t xml_data_size,
 		if (NULL == TagStart)
 			return (ESPIPE);
 		TagStart ++;
+		if (TagStart >= xml_data_end) /* '<' is the last byte. */
+			return (ESPIPE);
 		data_avail = (size_t)(xml_data_end - TagStart);
 		switch ((*TagStart)) {
 		case '?': /* <?...?> processing instructions */
@@ -149,6 +152,10 @@ xml_get_val_arr(const uint8_t *xml_data, size_t xml_data_size,
 			level --;
 			if (0 <= level) /* Close some sub tag. */
 				continue;
+			if (0 == cur_tag) { /* Close tag above the first path element. */
+				level = 0;
+				continue;
+			}
 			if (0 != mem_cmpn(tag_arr[(cur_tag - 1)], tag_arr_cnt[(cur_tag -1)],
 			    (TagStart + 1), (size_t)(TagEnd - TagStart))) /* Is name close qual name open? */
 				continue;
@@ -211,6 +218,8 @@ xml_get_val_arr(const uint8_t *xml_data, size_t xml_data_size,
 			}
 			if (1 != level &&
 			    0 == ee) /* Open some sub tag. */
+				continue;
+			if (cur_tag >= tag_arr_count) /* Sub tag of the target tag. */
 				continue;
 			if (0 != mem_cmpn(tag_arr[cur_tag], tag_arr_cnt[cur_tag],
 			    TagStart, (size_t)((TagNameEnd + 1) - TagStart)))
@@ -533,7 +542,8 @@ xml_get_val_ns_arr(const uint8_t *xml_data, size_t xml_data_size,
 		return (EINVAL);
 
 	memset(ret_ns_size, 0x00, (sizeof(size_t) * tag_arr_count));
-	if (NULL != next_pos && xml_data <= (*next_pos) &&
+	if (NULL != next_pos && NULL != (*next_pos) &&
+	    xml_data <= (*next_pos) &&
 	    (xml_data + xml_data_size) > (*next_pos)) {
 		TagEnd = (*next_pos);
 		cur_tag = ((TagEnd == xml_data) ? 0 : (tag_arr_count - 1));
@@ -546,6 +556,8 @@ xml_get_val_ns_arr(const uint8_t *xml_data, size_t xml_data_size,
 		if (NULL == TagStart)
 			return (ESPIPE);
 		TagStart ++;
+		if (TagStart >= xml_data_end) /* '<' is the last byte. */
+			return (ESPIPE);
 		data_avail = (size_t)(xml_data_end - TagStart);
 		switch ((*TagStart)) {
 		case '?': /* <?...?> processing instructions */
@@ -595,7 +607,13 @@ xml_get_val_ns_arr(const uint8_t *xml_data, size_t xml_data_size,
 			//LOG_EV_FMT("tag cmp (%zu) = %s", ((TagEnd + 1) - TagNameStart), TagNameStart);
 			if (0 <= level) /* Close some sub tag. */
 				continue;
+			if (0 == cur_tag) { /* Close tag above the first path element. */
+				level = 0;
+				continue;
+			}
 			if (0 != ret_ns_size[(cur_tag - 1)]) { /* Fix name space. */
+				if ((size_t)((TagEnd + 1) - TagNameStart) <= ret_ns_size[(cur_tag - 1)])
+					continue; /* Shorter than 'ns' + ':'. */
 				TagNameStart += (ret_ns_size[(cur_tag - 1)] + 1); /* = 'ns' + ':' */
 			}
 			if (0 != mem_cmpn(tag_arr[(cur_tag - 1)], tag_arr_cnt[(cur_tag -1)],
@@ -663,6 +681,8 @@ xml_get_val_ns_arr(const uint8_t *xml_data, size_t xml_data_size,
 			//LOG_EV_FMT("tag cmp (%zu) = %s", ((TagNameEnd + 1) - TagNameStart), TagNameStart);
 			if (1 != level &&
 			    0 == ee) /* Open some sub tag. */
+				continue;
+			if (cur_tag >= tag_arr_count) /* Sub tag of the target tag. */
 				continue;
 			NameSpEnd = mem_chr(TagNameStart,
 			    (size_t)((TagNameEnd + 1) - TagNameStart), ':');
